@@ -366,7 +366,7 @@ func main() {
 		return
 	}
 	defer d.Close()
-	r.Rule = "case = (a) one field / one source line of the lockset table re-extracted from the tree (verdict and site lookup, Go analysis vs. Lean driver over Gen/RaceFacts.lean), (b) one data race reported by the Go race detector in a concurrent scenario (3 real clients x (3 request workers + 1 subscription worker), real server with server-side value changes; variants: channel renewal every 0.9 s, two connection cuts with automatic reconnect; concurrent Close), attributed to a table field by the first stack frame that is a table site; distinct by field / function pair"
+	r.Rule = "case = (a) one field / one source line of the lockset table re-extracted from the tree (verdict and site lookup, Go analysis vs. Lean driver over Gen/RaceFacts.lean), (b) one data race reported by the Go race detector in a concurrent scenario (3 real clients x (3 request workers + 1 subscription worker), real server with server-side value changes; variants: channel renewal every 0.3 s, two connection cuts with automatic reconnect; concurrent Close), attributed to a table field by the first stack frame that is a table site; distinct by field / function pair"
 
 	t, err := racefacts.Analyze(repo)
 	if err != nil {
